@@ -128,8 +128,11 @@ class GenericAdaptiveCrossoverStep(GenericCrossoverStep):
         target_size: int,
         generation: int,
     ) -> None:
-        evaluator.evaluate(problem, population)
-        best = best_of_population(population, problem)
+        npop = list(population)
+        if not npop:
+            return
+        evaluator.evaluate(problem, npop)
+        best = best_of_population(npop, problem)
         best_fitness = best.get_fitness(problem)
         if self.first:
             self.first = False
